@@ -220,6 +220,9 @@ Definition a_faa_sync (r : nat) : A unit := fun g =>
   (upd_rec g r (fun x => rs_sync (S (r_sync x)) x), tt, acc KFaa (obj_rec r 2) true).
 Definition a_ld_ext (r : nat) : A (option nat) := fun g => (g, r_ext (grec g r), acc KLd (obj_rec r 3) true).
 Definition a_st_ext (r : nat) (v : option nat) : A unit := fun g => (upd_rec g r (rs_ext v), tt, acc KSt (obj_rec r 3) true).
+(** the same store together with the ghost events of the step *)
+Definition a_st_ext_g (r : nat) (v : option nat) (ghost : list ev) : A unit :=
+  fun g => (upd_rec g r (rs_ext v), tt, acc KSt (obj_rec r 3) true ++ ghost).
 
 Definition a_ld_slot (s : gref) : A nat := fun g => (g, slot_get g s, acc KLd (obj_slot s) true).
 (** does [s] name an existing cell? (the ghost event is emitted only for a store that hits a cell) *)
@@ -377,8 +380,7 @@ Definition hp_extend (c : cfg) (r : nat) : P unit :=
   b <- hp_alloc c ;;
   e <- act (a_ld_ext r) ;;
   loc (fun g => (upd_gb g b (gs_nextb e), tt)) ;;;
-  act (a_st_ext r (Some b)) ;;;
-  emit [ev_link r b] ;;;
+  act (a_st_ext_g r (Some b) [ev_link r b]) ;;;
   loc (fun g => (upd_rec g r (rs_fhead (Some (GE b 0))), tt)).
 
 (** alloc(): if ( free_head_ == nullptr ) extend(); g = free_head_; free_head_ = g->next_; return g; *)
